@@ -33,6 +33,12 @@ def templates(n_prog):
         T.append(lambda k=k: I.LW(1, 3, k))
         T.append(lambda k=k: I.LW(2, 3, k))
         T.append(lambda k=k: I.SW(3, 2, k))
+    # effective addresses that are negative / beyond 2**32 before wrapping (the top of the address space is valid data memory)
+    T.append(lambda: I.SW(0, 1, -4))
+    T.append(lambda: I.LW(2, 0, -4))
+    T.append(lambda: I.SB(2, 1, -9))
+    T.append(lambda: I.LBU(1, 2, -9))
+    T.append(lambda: I.SH(1, 2, -2048))
     T.append(lambda: I.LH(1, 3, 66))
     T.append(lambda: I.SH(3, 1, 34))
     for rs1 in (0, 1, 2):
